@@ -105,10 +105,10 @@ _TOKEN_RE = re.compile(
     # IntValue / FloatValue, with the lookahead restriction
     r"|(?P<num>-?(?:0|[1-9][0-9]*)(?P<frac>\.[0-9]+)?(?P<exp>[eE][+-]?[0-9]+)?(?![0-9A-Za-z_.]))"
     # block string: `"""` BlockStringCharacter* `"""`;  BlockStringCharacter :: SourceCharacter but not `"""` or `\"""` | `\"""`
-    r'|(?P<BlockString>"""(?:[^"\\]+|\\"""|\\(?!""")|"(?!""))*""")'
+    r'|(?P<BlockString>"""(?:[^"\\]|\\"""|\\(?!""")|"(?!""))*""")'
     r'|(?P<ubstr>""")'
     # StringValue :: `"` StringCharacter* `"`; StringCharacter :: SourceCharacter but not `"` `\` LineTerminator | \uXXXX | \ EscapedCharacter
-    r'|(?P<String>"(?:[^"\\\n\r]+|\\(?:["\\/bfnrt]|u[0-9A-Fa-f]{4}))*")'
+    r'|(?P<String>"(?:[^"\\\n\r]|\\(?:["\\/bfnrt]|u[0-9A-Fa-f]{4}))*")'
     r"|(?P<bad>[\s\S])"
 )
 
@@ -729,7 +729,7 @@ def strip_raw(node):
 # ---------------------------------------------------------------------------
 _PRINT_ESC = {'"': '\\"', "\\": "\\\\", "\b": "\\b", "\f": "\\f", "\n": "\\n", "\r": "\\r", "\t": "\\t"}
 _NEEDS_ESC = re.compile('["\\\\\x00-\x1f\x7f\ud800-\udfff]|[^\x00-\uffff]')
-_BLOCK_TOKEN = re.compile(r'"""(?:[^"\\]+|\\"""|\\(?!""")|"(?!""))*"""\Z')
+_BLOCK_TOKEN = re.compile(r'"""(?:[^"\\]|\\"""|\\(?!""")|"(?!""))*"""\Z')
 
 
 def _esc_char(m):
